@@ -25,7 +25,9 @@ ONE_P = 1.0 + 2.0 ** -52            # smallest double above 1
 DRAWS = (0.0, 0.5, ONE_M)           # extremes and midpoint of a draw from [0, 1)
 SCRIPT_POSITIONS = 5
 REPEAT_ITEMS = 60
-HANG_S = 20.0                       # budget for one call of the code under test (only ever reached by a hang)
+HANG_S = 10.0                       # budget for one call of the code under test (only ever reached by a hang)
+MAX_HANGS = 2                       # per worker process: after that many hangs the remaining points are skipped
+_hangs = 0
 STEP_CAP = 200000                   # reference: give up looking for stop after this many growth steps
 JITTER_MAX_LEN = 64                 # jitter part: default-count points with a longer reference are left to the
                                     # no-jitter part (the draws of a script only differ in the first 5 positions)
@@ -282,6 +284,8 @@ def observe(seam, fn, p, draws, pull):
         finally:
             signal.setitimer(signal.ITIMER_REAL, 0)
     except Hang:
+        global _hangs
+        _hangs += 1
         return 'hang', vals
     except Exception as e:
         return 'exc:' + type(e).__name__, vals
@@ -403,6 +407,9 @@ def run_point(seam, t, p, repeat_items):
     if not in_scope(p):
         t.add('left_out_of_scope', 1)
         return
+    if _hangs >= MAX_HANGS:         # the hang is already reported; do not spend the budget again on every point
+        t.add('skipped_after_hangs', 1)
+        return
     ref_steps = None
     if p['count'] is None and not invalid_kinds(p):
         ref_steps = Reference(p['start'], p['stop'], p['factor']).steps_to_stop()
@@ -464,8 +471,9 @@ def run(ctx):
             plain.append((start, factor, B['counts'], B['k_max']))
         for factor in B['factors_explicit_count_only']:
             plain.append((start, factor, tuple(c for c in B['counts'] if c is not None), B['k_max']))
-    inputs.run_shards(ctx, shard_plain, plain, part='no jitter: start x factor x stop x count',
-                      rule='full lattice, jitter=False')
+    totals = []
+    totals.append(inputs.run_shards(ctx, shard_plain, plain, part='no jitter: start x factor x stop x count',
+                                    rule='full lattice, jitter=False'))
 
     jit = []
     for start in B['jitter_starts']:
@@ -475,17 +483,24 @@ def run(ctx):
             for factor in B['jitter_factors_explicit_count_only']:
                 jit.append((start, factor, jitter, tuple(c for c in B['jitter_counts'] if c is not None),
                             B['jitter_k'], B['jitter_repeat_items']))
-    inputs.run_shards(ctx, shard_jitter, jit, part='jitter: start x factor x stop x count x jitter x draws',
-                      rule='sub-lattice x every draw sequence over {0, 0.5, 1-2**-53} for the first 5 positions')
+    totals.append(inputs.run_shards(
+        ctx, shard_jitter, jit, part='jitter: start x factor x stop x count x jitter x draws',
+        rule='sub-lattice x every draw sequence over {0, 0.5, 1-2**-53} for the first 5 positions'))
 
     menu = [(a, b) for a in MENU['start'] for b in MENU['stop']]
-    inputs.run_shards(ctx, shard_menu, menu, part='edge menu: valid and invalid values of every parameter',
-                      rule='full product of the menu, each point classified by the validity predicate of the '
-                           'statement; jitter points x every draw sequence')
+    totals.append(inputs.run_shards(
+        ctx, shard_menu, menu, part='edge menu: valid and invalid values of every parameter',
+        rule='full product of the menu, each point classified by the validity predicate of the statement; the '
+             'numbers are passed as ints where integral; jitter points x every draw sequence'))
+    skipped = sum(t.extra.get('skipped_after_hangs', 0) for t in totals)
 
     cov = ctx.coverage
     cov['rule'] = RULE
-    cov['exhaustive'] = True      # every point of the stated lattice is executed; no cap exists in run()
+    # every point of the stated lattice is executed; the only cap is the hang budget of the code under test
+    cov['exhaustive'] = skipped == 0
+    if skipped:
+        cov['cap_hit'] = ('%d lattice points skipped after calls that did not return within %gs (reported as '
+                          'violations)' % (skipped, HANG_S))
     cov['bounds'] = {
         'tier': ctx.tier,
         'lattice': {k: list(v) if isinstance(v, tuple) else v for k, v in B.items()},
